@@ -245,6 +245,20 @@ theorem dot_format_parses (c : RenderCtx) (F fuel s : Nat) (items : List Item)
     parseString (render c items) = some (some "asynciojobs".toList, docStmts c items) :=
   render_parses c items hlab hw (dotBody_brackets c.t F fuel s items h)
 
+/-- C20: no colour is inherited from an enclosing cluster. In the statements the document parses into
+    (`docStmts`, see `render_parses`), the subgraph of every cluster `s` opens with its own `graph [...]` statement,
+    and the attributes of that statement include `color`: `red` when `s` is critical, `black` otherwise -/
+theorem cluster_color_parsed (c : RenderCtx) (items : List Item) (s : Nat) (h : Item.openCluster s ∈ items) :
+    ∃ as, [DStmt.openSub (some (clusterName c s).toList), .assign "compound".toList "true".toList,
+        .attr "graph".toList as] <:+: docStmts c items ∧
+      ("color".toList, (if c.t.critical s = true then "red" else "black").toList) ∈ as := by
+  obtain ⟨l1, l2, rfl⟩ := List.append_of_mem h
+  refine ⟨attrsOf (styleAttrs c s), ⟨[.assign "compound".toList "true".toList, .attr "graph".toList []] ++
+    l1.flatMap (stmtsOf c), l2.flatMap (stmtsOf c), ?_⟩, ?_⟩
+  · simp [docStmts, stmtsOf]
+  · obtain ⟨v, hv, rfl⟩ := cluster_color_explicit c s
+    exact List.mem_map.2 ⟨_, hv, rfl⟩
+
 /-! ### non-vacuity: a concrete scheduler (a nested scheduler 1 holding job 2, then the critical job 3 that
     requires the nested scheduler; job 2's label contains double quotes) -/
 
@@ -270,9 +284,10 @@ example : parseString (render exCtx exItems) = some (some "asynciojobs".toList,
     [.assign "compound".toList "true".toList, .attr "graph".toList [],
      .openSub (some "cluster_1".toList), .assign "compound".toList "true".toList,
      .attr "graph".toList [("style".toList, []), ("label".toList, "1: job".toList), ("shape".toList, "box".toList),
-       ("penwidth".toList, "0.5".toList)],
+       ("color".toList, "black".toList), ("penwidth".toList, "0.5".toList)],
      .node "2".toList [("style".toList, "rounded".toList), ("label".toList, "2: a \"b\"".toList),
-       ("shape".toList, "box".toList), ("penwidth".toList, "0.5".toList)],
+       ("shape".toList, "box".toList), ("color".toList, "black".toList),
+       ("penwidth".toList, "0.5".toList)],
      .closeSub,
      .node "3".toList [("style".toList, "rounded".toList), ("label".toList, "3: job".toList),
        ("shape".toList, "box".toList), ("color".toList, "red".toList), ("penwidth".toList, "2".toList)],
@@ -342,15 +357,18 @@ example : dotBody exT3 5 5 0 =
 /-- the text, byte for byte -/
 example : render exCtx2 exItems2 =
     "digraph asynciojobs{\ncompound=true;\ngraph [];\n" ++
-    "subgraph cluster_1{\ncompound=true;\ngraph [style=\"\",label=\"1: x\",shape=\"box\",penwidth=\"0.5\"];\n" ++
+    "subgraph cluster_1{\ncompound=true;\n" ++
+    "graph [style=\"\",label=\"1: x\",shape=\"box\",color=\"black\",penwidth=\"0.5\"];\n" ++
     "1 [shape=\"point\",style=\"invis\"]\n}\n" ++
-    "2 [style=\"rounded\",label=\"2: x\",shape=\"box\",penwidth=\"0.5\"]\n" ++
+    "2 [style=\"rounded\",label=\"2: x\",shape=\"box\",color=\"black\",penwidth=\"0.5\"]\n" ++
     "1 -> 2 [ltail=cluster_1];\n" ++
-    "subgraph cluster_3{\ncompound=true;\ngraph [style=\"\",label=\"3: x\",shape=\"box\",penwidth=\"0.5\"];\n" ++
+    "subgraph cluster_3{\ncompound=true;\n" ++
+    "graph [style=\"\",label=\"3: x\",shape=\"box\",color=\"black\",penwidth=\"0.5\"];\n" ++
     "3 [shape=\"point\",style=\"invis\"]\n}\n" ++
     "2 -> 3 [lhead=cluster_3];\n" ++
     "1 -> 3 [lhead=cluster_3 ltail=cluster_1];\n" ++
-    "subgraph cluster_4{\ncompound=true;\ngraph [style=\"\",label=\"4: x\",shape=\"box\",penwidth=\"0.5\"];\n}\n" ++
+    "subgraph cluster_4{\ncompound=true;\n" ++
+    "graph [style=\"\",label=\"4: x\",shape=\"box\",color=\"black\",penwidth=\"0.5\"];\n}\n" ++
     "}\n" := by
   decide +kernel
 
@@ -375,22 +393,23 @@ example : parseString (render exCtx2 exItems2) = some (some "asynciojobs".toList
     [.assign "compound".toList "true".toList, .attr "graph".toList [],
      .openSub (some "cluster_1".toList), .assign "compound".toList "true".toList,
      .attr "graph".toList [("style".toList, []), ("label".toList, "1: x".toList), ("shape".toList, "box".toList),
-       ("penwidth".toList, "0.5".toList)],
+       ("color".toList, "black".toList), ("penwidth".toList, "0.5".toList)],
      .node "1".toList [("shape".toList, "point".toList), ("style".toList, "invis".toList)],
      .closeSub,
      .node "2".toList [("style".toList, "rounded".toList), ("label".toList, "2: x".toList),
-       ("shape".toList, "box".toList), ("penwidth".toList, "0.5".toList)],
+       ("shape".toList, "box".toList), ("color".toList, "black".toList),
+       ("penwidth".toList, "0.5".toList)],
      .edge "1".toList "2".toList [("ltail".toList, "cluster_1".toList)],
      .openSub (some "cluster_3".toList), .assign "compound".toList "true".toList,
      .attr "graph".toList [("style".toList, []), ("label".toList, "3: x".toList), ("shape".toList, "box".toList),
-       ("penwidth".toList, "0.5".toList)],
+       ("color".toList, "black".toList), ("penwidth".toList, "0.5".toList)],
      .node "3".toList [("shape".toList, "point".toList), ("style".toList, "invis".toList)],
      .closeSub,
      .edge "2".toList "3".toList [("lhead".toList, "cluster_3".toList)],
      .edge "1".toList "3".toList [("lhead".toList, "cluster_3".toList), ("ltail".toList, "cluster_1".toList)],
      .openSub (some "cluster_4".toList), .assign "compound".toList "true".toList,
      .attr "graph".toList [("style".toList, []), ("label".toList, "4: x".toList), ("shape".toList, "box".toList),
-       ("penwidth".toList, "0.5".toList)],
+       ("color".toList, "black".toList), ("penwidth".toList, "0.5".toList)],
      .closeSub]) := by
   rw [exItems2_parses]
   decide +kernel
@@ -408,5 +427,57 @@ example : ∃ items, dotBody exT2 5 5 0 = .ok items :=
       · have : exT2.mem s' = [] := by simp [exT2, h0]
         rw [this] at hk; cases hk)
     (by decide) (by rfl)
+
+/-! ### non-vacuity, the case that used to be drawn in red: the non-critical scheduler 2 lies inside the critical
+    scheduler 1; its cluster states `color="black"` itself instead of inheriting `color="red"` from `cluster_1` -/
+
+def exT4 : T where
+  n := 4
+  isSched := fun j => j == 0 || j == 1 || j == 2
+  mem := fun j => if j == 0 then [1] else if j == 1 then [2] else if j == 2 then [3] else []
+  req := fun _ => []
+  forever := fun _ => false
+  critical := fun j => j == 1
+
+def exCtx4 : RenderCtx := { t := exT4, idOf := fun j => j, w := 1, label := fun _ => "x" }
+
+def exItems4 : List Item := [.openCluster 1, .openCluster 2, .node 3, .close, .close]
+
+theorem exItems4_eq : dotBody exT4 5 5 0 = .ok exItems4 := by rfl
+
+/-- the text, byte for byte -/
+example : render exCtx4 exItems4 =
+    "digraph asynciojobs{\ncompound=true;\ngraph [];\n" ++
+    "subgraph cluster_1{\ncompound=true;\n" ++
+    "graph [style=\"\",label=\"1: x\",shape=\"box\",color=\"red\",penwidth=\"2\"];\n" ++
+    "subgraph cluster_2{\ncompound=true;\n" ++
+    "graph [style=\"\",label=\"2: x\",shape=\"box\",color=\"black\",penwidth=\"0.5\"];\n" ++
+    "3 [style=\"rounded\",label=\"3: x\",shape=\"box\",color=\"black\",penwidth=\"0.5\"]\n" ++
+    "}\n}\n}\n" := by
+  decide +kernel
+
+/-- … and what it parses into (through `dot_format_parses`): each of the two clusters has its own `color` -/
+example : parseString (render exCtx4 exItems4) = some (some "asynciojobs".toList,
+    [.assign "compound".toList "true".toList, .attr "graph".toList [],
+     .openSub (some "cluster_1".toList), .assign "compound".toList "true".toList,
+     .attr "graph".toList [("style".toList, []), ("label".toList, "1: x".toList), ("shape".toList, "box".toList),
+       ("color".toList, "red".toList), ("penwidth".toList, "2".toList)],
+     .openSub (some "cluster_2".toList), .assign "compound".toList "true".toList,
+     .attr "graph".toList [("style".toList, []), ("label".toList, "2: x".toList), ("shape".toList, "box".toList),
+       ("color".toList, "black".toList), ("penwidth".toList, "0.5".toList)],
+     .node "3".toList [("style".toList, "rounded".toList), ("label".toList, "3: x".toList),
+       ("shape".toList, "box".toList), ("color".toList, "black".toList), ("penwidth".toList, "0.5".toList)],
+     .closeSub, .closeSub]) := by
+  rw [dot_format_parses exCtx4 5 5 0 exItems4 exItems4_eq
+    (by intro j; show ∀ ch ∈ ("x" : String).toList, ch ≠ '\\'; decide) (by decide)]
+  decide +kernel
+
+/-- `style_color` and `cluster_color_parsed` on it -/
+example : ("color", "black") ∈ styleAttrs exCtx4 2 ∧ ("color", "red") ∈ styleAttrs exCtx4 1 :=
+  ⟨((style_color exCtx4 2).2.2.1).2 rfl, ((style_color exCtx4 1).2.1).2 rfl⟩
+
+example : ∃ as, [DStmt.openSub (some "cluster_2".toList), .assign "compound".toList "true".toList,
+      .attr "graph".toList as] <:+: docStmts exCtx4 exItems4 ∧ ("color".toList, "black".toList) ∈ as :=
+  cluster_color_parsed exCtx4 exItems4 2 (by decide)
 
 end AJ.Proofs.C20Parse
